@@ -55,6 +55,8 @@ def lib_src(frag, max_els=8, kinds=('gen', 'agen'), ends=('flag', 'sep'), max_fr
         'els': st.lists(nonempty_lens(frag, max_frags), min_size=0, max_size=max_els),
         'end': st.sampled_from(list(ends)),
         'awaits': st.integers(0, 3),
+        # paced publisher (delay_between_messages, virtual milliseconds): the puller runs ahead of the feeder
+        'pace': st.sampled_from([0, 0, 0, 0, 5, 30]),
     })
 
 
